@@ -38,6 +38,7 @@ SelectedOK(p, r) ==
 NoDupEntries(r) == \A i, j \in DOMAIN r.entries : (i # j) => (r.entries[i].k # r.entries[j].k \/ r.entries[i].h # r.entries[j].h)
 
 RunOK(rec) ==
+  /\ Clause("request_answered", rec.errors = <<>>)     \* no operation (Get request, transaction) died with an exception
   /\ \A i \in DOMAIN rec.reads :
        LET r == rec.reads[i] IN
        /\ Clause("label_is_a_version_that_existed", Key(r.label) \in DOMAIN rec.phist)
